@@ -277,12 +277,20 @@ func Run(dir, tier string, seed int64) error {
 			} else {
 				run.Count("no-success:post")
 			}
-			// ---- attribute query
-			aq := `<soap:Envelope xmlns:soap="http://schemas.xmlsoap.org/soap/envelope/"><soap:Body><samlp:AttributeQuery xmlns:samlp="urn:oasis:names:tc:SAML:2.0:protocol" xmlns:saml="urn:oasis:names:tc:SAML:2.0:assertion" ID="` + idp.EscAttr(h+"#aq") + `" Version="2.0" IssueInstant="2024-01-01T00:00:00Z"><saml:Issuer>` + idp.EscAttr(spm.EntityID) + `</saml:Issuer><saml:Subject><saml:NameID>alice</saml:NameID></saml:Subject></samlp:AttributeQuery></soap:Body></soap:Envelope>`
-			if rep := env.Do(idp.ReqSpec{Method: http.MethodPost, Path: "/attribute", RawBody: &aq}.HTTP()); rep.Msg != nil && strings.HasSuffix(rep.Status, ":Success") {
-				checkEnveloped("attribute-response", rep.Msg, "Assertion", respCert, desc())
-			} else {
-				run.Count("no-success:attribute-query")
+			// ---- a user record with nothing but a login name (empty attribute statement)
+			st.Users["u0"] = &idp.User{Username: h + "#bare"}
+			st.Requests["r0"] = &idp.AuthReq{ID: "r0", AppID: "app-1", RelayState: h, ACS: "https://sp.example/acs", Binding: idp.PostBinding, AuthReqID: h + "#req", UserID: "u0", IsDone: true}
+			if rep := env.Do(idp.ReqSpec{Method: http.MethodGet, Path: "/login", Query: []idp.Param{idp.Q("id", "r0")}}.HTTP()); rep.Msg != nil && strings.HasSuffix(rep.Status, ":Success") {
+				checkEnveloped("post-response-no-attributes", rep.Msg, "Assertion", respCert, desc())
+			}
+			// ---- attribute query: everything / one attribute the user has / only an attribute the user has not
+			for qi, requested := range []string{"", `<saml:Attribute Name="Email" NameFormat="urn:oasis:names:tc:SAML:2.0:attrname-format:basic"/>`, `<saml:Attribute Name="NoSuchAttribute" NameFormat="urn:oasis:names:tc:SAML:2.0:attrname-format:basic"/>`} {
+				aq := `<soap:Envelope xmlns:soap="http://schemas.xmlsoap.org/soap/envelope/"><soap:Body><samlp:AttributeQuery xmlns:samlp="urn:oasis:names:tc:SAML:2.0:protocol" xmlns:saml="urn:oasis:names:tc:SAML:2.0:assertion" ID="` + idp.EscAttr(h+"#aq") + `" Version="2.0" IssueInstant="2024-01-01T00:00:00Z"><saml:Issuer>` + idp.EscAttr(spm.EntityID) + `</saml:Issuer><saml:Subject><saml:NameID>alice</saml:NameID></saml:Subject>` + requested + `</samlp:AttributeQuery></soap:Body></soap:Envelope>`
+				if rep := env.Do(idp.ReqSpec{Method: http.MethodPost, Path: "/attribute", RawBody: &aq}.HTTP()); rep.Msg != nil && strings.HasSuffix(rep.Status, ":Success") {
+					checkEnveloped([]string{"attribute-response", "attribute-response-one", "attribute-response-none-matching"}[qi], rep.Msg, "Assertion", respCert, desc())
+				} else {
+					run.Count("no-success:attribute-query")
+				}
 			}
 			// ---- signed metadata
 			if rep := env.Do(idp.ReqSpec{Method: http.MethodGet, Path: "/metadata"}.HTTP()); rep.Code == 200 {
@@ -379,6 +387,6 @@ func Run(dir, tier string, seed int64) error {
 			}
 		}
 	}
-	run.Res.Rule = "18 values (each character Canonical XML escapes: & < > CR in text, & < double-quote TAB LF CR in attribute values; apostrophe, leading / trailing / double space, multi-byte and supplementary-plane code points, entity look-alikes, CDATA terminator, a URL with & in its query) placed in every string that reaches a signed artefact (user attributes and custom attribute names / formats / values, NameID, audience = SP entity ID, recipient = consumer URL, request ID, RelayState, organisation and contact data) x {rsa-sha256, rsa-sha1} x artefacts {POST-binding response assertion, attribute-query response assertion, signed metadata, Redirect-binding query signature for consumer URLs with and without a query}: each enveloped signature is validated with goxmldsig and the published certificate; the signed element (without its Signature) goes to Coq as a tree together with the signer's digest input (whose hash must equal the emitted DigestValue) and goxmldsig's exclusive canonical form; each redirect URL is verified by the SAML Bindings 3.4.4.1 procedure on its raw query and compared with the generated BuildRedirectQuery; stored binding {POST, Redirect} x consumer URL {set, empty} are probed for a Success assertion without signature. distinct = (artefact, value class, verdict)."
+	run.Res.Rule = "18 values (each character Canonical XML escapes: & < > CR in text, & < double-quote TAB LF CR in attribute values; apostrophe, leading / trailing / double space, multi-byte and supplementary-plane code points, entity look-alikes, CDATA terminator, a URL with & in its query) placed in every string that reaches a signed artefact (user attributes and custom attribute names / formats / values, NameID, audience = SP entity ID, recipient = consumer URL, request ID, RelayState, organisation and contact data) x {rsa-sha256, rsa-sha1} x artefacts {POST-binding response assertion (full user record; record with a login name only), attribute-query response assertion (all attributes / one requested / none matching), signed metadata, Redirect-binding query signature for consumer URLs with and without a query}: each enveloped signature is validated with goxmldsig and the published certificate; the signed element (without its Signature) goes to Coq as a tree together with the signer's digest input (whose hash must equal the emitted DigestValue) and goxmldsig's exclusive canonical form; each redirect URL is verified by the SAML Bindings 3.4.4.1 procedure on its raw query and compared with the generated BuildRedirectQuery; stored binding {POST, Redirect} x consumer URL {set, empty} are probed for a Success assertion without signature. distinct = (artefact, value class, verdict)."
 	return run.Finish()
 }
